@@ -331,6 +331,10 @@ class CF2D(Model):
             variables[lon_name + '_bounds'] = xarray.DataArray(self.lon_bounds, dims=[ydim, xdim, 'nv'])
         lat = xarray.DataArray(self.cy, dims=[ydim, xdim], attrs=lat_attrs)
         lon = xarray.DataArray(self.cx, dims=[ydim, xdim], attrs=lon_attrs)
+        if e.get('transpose_lon'):
+            # the longitude variable is stored with its two dimensions the other way round (valid CF: a variable names
+            # its own dimensions); the cell (j, i) is the same cell whichever way a variable is stored
+            lon = lon.transpose(xdim, ydim)
         ds = xarray.Dataset()
         if e['coord_style'] == 'var':
             ds = ds.assign({lat_name: lat, lon_name: lon})
@@ -379,6 +383,8 @@ def make_cf2d(rng, *, shoc=False, nj=None, ni=None, bounds=None, holes=None, coo
         ident = pick(rng, ['both', 'units', 'standard_name'])
     m.encoding = dict(bounds=bounds, coord_style=coord_style, holes=holes, map=map_kind, ydim=ydim, xdim=xdim,
                       lat_name=lat_name, lon_name=lon_name, ident=ident)
+    if bounds != 'none' and not shoc and chance(rng, 0.12):
+        m.encoding['transpose_lon'] = True
     m.kinds = {'face': Kind('face', (ydim, xdim), (nj, ni))}
     m.derived_geometry = bounds == 'none'
     m.skip_cells = set()
